@@ -83,6 +83,43 @@ CHECKS = {
             'tree of the corrected text; unknown option names must raise PySmiError.',
             'Lone supportIndex is not buildable and not a case; texts avoid the words the SMIv1 keyword set '
             'reserves.', '4/C17'),
+    'C07': ('exploration',
+            'Hypothesis scenarios over scripted reader/searcher/borrower/writer/codegen doubles around the real '
+            'parser and symbol table; invariants over (scenario, call log, result) + metamorphic heal-one-module relation',
+            'compile() is driven with generated import graphs, per-(source, module) outcomes (absent, reader error, '
+            'good, lexical/syntax/truncated/semantic defect, empty), generator and writer failures and all options; '
+            'every run must return a mapping with one of six statuses for the whole closure, write each module at '
+            'most once, report compiled/borrowed exactly when the writer accepted the text, hand the generator\'s '
+            'text over unchanged and attach the causing error; healing one bad module must not change unrelated ones.',
+            'Doubles signal failures only through PySmiError subclasses; the closure/supplier model in vlib/orch.py '
+            'is the trusted base.', '4/C07'),
+    'C08': ('exploration',
+            'Hypothesis import digraphs x source assignments on the orchestration harness; closure model + call-order '
+            'invariants + call budget for termination',
+            'Result keys must cover the model\'s import closure; each (source, name) is asked at most once, sources in '
+            'the order added and none after the first usable copy, whose (source-marked) text is what gets parsed; a '
+            'budget of 400 calls per module turns non-termination into a violation.',
+            'Termination is bounded-call, not a proof; "first source" = first usable text.', '4/C08'),
+    'C09': ('exploration',
+            'Hypothesis failure placements on the orchestration harness; all-or-nothing invariant over the call log',
+            'For every generated placement of find/parse/generate failures (with and without borrowers, ignoreErrors '
+            'on/off) the writer must receive nothing and built modules must be unprocessed when a failure remains, '
+            'and receive every built module exactly once when errors are ignored.',
+            'Writer failures are outside the failure set, as in the statement.', '4/C09'),
+    'C10': ('exploration',
+            'Hypothesis searcher lists on the orchestration harness (protocol invariants) + exhaustive enumeration of '
+            'real file searchers over an mtime/decoy lattice on a temp directory',
+            'A: order, rebuild flag, stop at first fresh, fresh => untouched and never generated, noDeps semantics, '
+            'stub lists immune to rebuild. B: 448 combinations of searcher kind x destination mtime around equality x '
+            'decoys x rebuild, enumerated completely against a reference predicate.',
+            'B trusts os.utime/os.stat on the sandbox filesystem; .pyc headers are finding D23.', '4/C10'),
+    'C19': ('exploration',
+            'Hypothesis borrower lists x failure placements on the orchestration harness (real AnyFileBorrower over '
+            'scripted readers) + real borrowers over generated directories',
+            'Borrowers must be consulted only for failed modules, in order, with the request flavour, never past the '
+            'first that returns; the borrowed text must be written verbatim with status borrowed; noDeps keeps '
+            'requested modules eligible; real borrowers only return files with a listed extension.',
+            'Model of "failed" = no usable source or generator raised.', '4/C19'),
     'C11': ('exploration',
             'exhaustive prefix enumeration of generated files + Hypothesis token mutants/noise; oracle = exception '
             'type, completeness by the renderer span table, exact line of never-viable tokens; atheris in thorough',
